@@ -5,6 +5,7 @@ go 1.22.0
 require (
 	github.com/attestantio/dirk v0.0.0
 	github.com/attestantio/go-eth2-client v0.21.11
+	github.com/google/uuid v1.6.0
 	github.com/herumi/bls-eth-go-binary v1.36.1
 	github.com/rs/zerolog v1.33.0
 	github.com/wealdtech/eth2-signer-api v1.7.2
@@ -46,7 +47,6 @@ require (
 	github.com/golang/protobuf v1.5.4 // indirect
 	github.com/golang/snappy v0.0.4 // indirect
 	github.com/google/s2a-go v0.1.8 // indirect
-	github.com/google/uuid v1.6.0 // indirect
 	github.com/googleapis/enterprise-certificate-proxy v0.3.4 // indirect
 	github.com/googleapis/gax-go/v2 v2.13.0 // indirect
 	github.com/grpc-ecosystem/go-grpc-middleware v1.4.0 // indirect
